@@ -200,21 +200,21 @@ def _patch(pid, field, old, new):
 _patch('C03', 'level_text', 'an undeclared property is a PropertyError (D9 found and fixed here).',
        'an undeclared property is a PropertyError (D9 found and fixed here). Class tables (klass unit): a declared field keeps its slot, slots are dense, a subclass starts with exactly its parent fields and methods, get_field_index/get_method are lookups; op_inherit accepts a class or a boxed class and raises otherwise; call_class puts a fresh instance in the callee slot and calls init with the same argument count (or checks zero arguments).')
 _patch('C03', 'level_note', 'Not decided: class construction, inheritance tables, field numbering by the compiler.',
-       'Not decided: field numbering by the compiler vs run-time Field order, meta classes, is_subclass (pointer recursion), op_class/op_method/op_field handlers.')
+       'Not decided: field numbering by the compiler vs run-time Field order, meta classes, is_subclass (pointer recursion), the class-body handlers record WHICH table update they make (op_method adds the closure on top under the name constant to the class below it, op_static_method to its meta class, op_field the name); their effect on the tables is the klass contracts.')
 _patch('C04', 'level_text', 'CheckHandler likewise (width 3).',
        'CheckHandler likewise (width 3). The run-time half: the six exception op handlers (ops unit); the real Fiber::stack_unwind resumes the innermost handler at its frame, catch offset and slot depth, and a nested interpreter run (native callback) only resumes handlers of frames it pushed itself, otherwise the error travels through the native (D17, a use after free on the pinned tree, found and fixed here); pause_unwind / finish_unwind / handler push and pop keep handler and frame stacks consistent; run_fun / run_method fix that boundary as the frame count before the callee frame.')
 _patch('C04', 'level_note', 'Not decided: PopHandler emission on every exit path, Fiber::stack_unwind/finish_unwind, op_* handler semantics (ops unit pending), native-callback boundary.',
        'Not decided: PopHandler emission on every exit path (Compiler), Vm::stack_unwind and the execute loop around Fiber::stack_unwind, the A-hist precondition of pause_unwind, the raw-pointer stores of stack_unwind (one stub).')
 CHECKS['C04']['technique'] = 'Verus contracts on handler depth (apply_stack_effects), handler jump encoding (encode), the exception op handlers, the real Fiber handler search (stack_unwind, pause_unwind, finish_unwind) and the native-callback hooks; property-level depth obligation kept as a listed finding'
 _patch('C06', 'level_text', 'and max_slots covers every simulated depth. ',
-       'and max_slots covers every simulated depth; the glue function peephole_compile is verified against exactly these callee contracts (pipeline unit: every call-site precondition, slice bound and the final length assertion), with compiler-output shape assumed once by name at the composition point; 58 real op handlers are tied to the effect table entry of their opcode (O-06.7). ')
+       'and max_slots covers every simulated depth; the glue function peephole_compile is verified against exactly these callee contracts (pipeline unit: every call-site precondition, slice bound and the final length assertion), with compiler-output shape assumed once by name at the composition point; 67 real op handlers are tied to the effect table entry of their opcode (O-06.7). ')
 _patch('C12', 'level_text', 'termination and absence of index/overflow panics are proved too.',
        'termination and absence of index/overflow panics are proved too. The abstract machine meaning of Get/Set Local, Box, Capture is what the real handlers do (ops unit), and peephole_compile builds the function from the optimised program (pipeline unit).')
 _patch('C15', 'level_text', 'D7 (u8 drop counter overflow) was found here and fixed.',
        'D7 (u8 drop counter overflow), D15 (u16 line overflow in emit_byte: a file of any length now compiles) and D16 (todo!() for more than 65535 labels in peephole_compile) were found here and fixed; peephole_compile itself is total under the named shape assumptions.')
 _patch('C16', 'level_text', 'Only these handlers are decided.',
        'Calls: anything that is not callable raises; call / call_closure push no frame at or above MAX_FRAME_SIZE whatever the history (D12 fixed); call_native runs a native body only behind Native::check_if_valid_call, which admits exactly what the declared signature admits; op_inherit, chan(n) for every n (D14 fixed), exit() inside native callbacks (D18 fixed) and errors leaving native callbacks (D17 fixed: memory safety) are decided.')
-_patch('C16', 'level_text', 'For the ~45 real op handlers', 'For the 58 real op handlers')
+_patch('C16', 'level_text', 'For the ~45 real op handlers', 'For the 67 real op handlers')
 _patch('C16', 'level_note', 'Not decided: native bodies and signature gate, call_native, resolve_call/call/call_closure and the frame limit, recursion through callbacks, errors while handling.',
        'Not decided: the ~150 native bodies themselves (that each assumes no more than its declared signature), the front end (C15), debug-only assert_roots accounting. One float lemma used by op_buffered_channel is discharged by a complete Kani harness over all f64.')
 CHECKS['C16']['technique'] = 'Verus: internal_error / todo! have precondition false and every unchecked access has a precondition, so each covered real function is proved never to reach a host panic; contracts on the real call dispatcher, frame limit, native gate, handler search and native-callback hooks'
